@@ -386,7 +386,8 @@ def check_c10(seed, tier):
     viol, evals, distinct, samples = [], 0, set(), []
     for trial in range(4 if tier == "quick" else 40):
         level = rng.choice(["1.1", "1.5"])
-        cfg = {"seed": rng.randrange(10**9), "level": level, "images": [("HH", None), ("VV", None)], "n_lines": rng.randint(2, 6), "n_pixels": 2}
+        images = [("HH", None), ("VV", None)] if trial % 2 == 0 else rng.choice([[("HH", "F1"), ("HV", "F1")], [("VV", "B2"), ("VV", "B3")]])
+        cfg = {"seed": rng.randrange(10**9), "level": level, "images": images, "n_lines": rng.randint(2, 6), "n_pixels": 2}
         prod = products.build(cfg)
         path, clean = products.place(prod, "local")
         wipe_user_cache()
